@@ -53,8 +53,7 @@ Proof.
   intros e i f w rest cg.
   destruct i; cbn [exec]; unfold fail, next;
     try (destruct n as [|m]);
-    repeat match goal with |- context [if ?b then _ else _] => destruct b end;
-    try same; try pop.
+    try solve [repeat match goal with |- context [if ?b then _ else _] => destruct b end; first [same | pop]].
   - (* CREATE *)
     match goal with |- context [start_create ?d ?ww ?a ?b ?c ?dd ?ee ?ff] =>
       destruct (start_create d ww a b c dd ee ff) as [o gb w'|child w'|] eqn:Hs end; try same.
@@ -82,7 +81,8 @@ Proof.
   - eapply sh_pop; [|exact H2]. congruence.
   - eapply sh_push with (child := child) (f' := f''); auto.
     + congruence.
-    + unfold sig in Hs. inversion Hs as [[Hk Hself Hstat Hsnap]]. rewrite <- Hself. exact H3.
+    + assert (Hself : f_self f' = f_self f) by (unfold sig in Hs; congruence).
+      rewrite <- Hself. exact H3.
 Qed.
 
 (** every step of a running configuration either keeps the frames, ends the top frame, or enters
@@ -155,7 +155,10 @@ Proof.
   - destruct (settle o ret f' w') as [[o1 g1] w1] eqn:Hs.
     exists o1. pose proof (finish_world o ret f' w' rest o1 g1 w1 Hs) as [Hw Hsn].
     pose proof (finish_frames o ret f' w' rest o1 g1 w1 Hs) as Hfr.
-    rewrite H2. unfold sig in H1. inversion H1 as [[Hk Hself Hstat Hsnap]]. split.
+    rewrite H2. unfold sig in H1.
+    assert (Hk : f_kind f' = f_kind f) by congruence.
+    assert (Hself : f_self f' = f_self f) by congruence.
+    assert (Hsnap : f_snap f' = f_snap f) by congruence. split.
     + intros Hne. rewrite Hw. rewrite (Hsn Hne). exact Hsnap.
     + destruct rest as [|p rest'].
       * destruct Hfr as [_ Hst]. eauto.
